@@ -285,6 +285,10 @@ pub fn check_plan_from_assets(w: &mut World, i: usize, assets: &Assets) {
             Some(Ok((wit, ss))) => {
                 w.stats.oracle_calls += 1;
                 if let Err(e) = exec_spend(w, &tx_p, i, &wit, &ss, Flags::STANDARD) {
+                    if !env.inputs[i].sane && crate::monitors::is_resource_error(&e) {
+                        w.stats.probe("insane_descriptor_exceeds_resource_limit");
+                        return;
+                    }
                     // the plan's own witness under the locks it reported
                     let known_fd = e == VmError::SigFindAndDelete;
                     raise_class(
